@@ -154,6 +154,7 @@ def machine_part(ck, items, tier):
                              key='mach' + c['ebnf'] + why[:20])
     ck.count(evaluations=n, traces=n)
     ck.notes['machine_cases'] = n
+    ck.notes['machine_cases_outside_Refines_KF_C03_1_scope'] = sum(1 for j in mach for t in mach[j] if mach[j][t].get('sl'))
     # code -> spec: real executions under small memo capacities and with pruning off: every (re-)evaluation and every memo hit of the
     # recorded run must be explainable by the machine (a hit only for a (position, rule) evaluated before, with the same value)
     from ..pegcheck import trace_validate
